@@ -312,7 +312,7 @@ func (e *Exec) execInstr(fr *Frame, b *ssa.BasicBlock, ins ssa.Instruction, st *
 		if basicOf(x.X.Type()) != nil { // string
 			s := scal(e.val(fr, x.X))
 			idx := scal(e.val(fr, x.Index))
-			e.oblige(st, "nopanic.index", x.Pos(), and(le(intLit(0), idx), lt(idx, app(SInt, "str.len", s))))
+			e.oblige(st, "nopanic.index", x.Pos(), and(le(intLit(0), idx), lt(idx, e.strLen(s))))
 			fr.regs[x] = &Scalar{T: app(SInt, "str.to_code", app(SStr, "str.at", s, idx)), Ty: x.Type()}
 		} else {
 			panic("Index on array value")
@@ -401,7 +401,7 @@ func (e *Exec) execInstr(fr *Frame, b *ssa.BasicBlock, ins ssa.Instruction, st *
 		for _, r := range x.Results {
 			vals = append(vals, e.val(fr, r))
 		}
-		if c := e.contracts[fr.fn]; c != nil {
+		if c := e.contractOf(fr.fn); c != nil && fr.depth == 0 && !fr.summary {
 			env := e.specEnv(fr, st, nil)
 			for k, v := range vals {
 				env.bound[fmt.Sprintf("result%d", k)] = v
@@ -410,7 +410,7 @@ func (e *Exec) execInstr(fr *Frame, b *ssa.BasicBlock, ins ssa.Instruction, st *
 				env.bound["result"] = vals[0]
 			}
 			for k, en := range c.Ensures {
-				e.obligeNamed(st, fmt.Sprintf("ensures%d", k+1), x.Pos(), scal(env.eval(en)))
+				e.obligeNamed(st, clauseLabel(en, "ensures", k), x.Pos(), scal(env.eval(en.Expr)))
 			}
 		}
 		fr.returns = append(fr.returns, retPoint{reach: st.reach, vals: vals, st: st.clone()})
@@ -444,7 +444,7 @@ func (e *Exec) execInstr(fr *Frame, b *ssa.BasicBlock, ins ssa.Instruction, st *
 			ok := e.fresh("next.ok", SBool)
 			k := e.fresh("next.k", SInt)
 			v := e.fresh("next.rune", SInt)
-			e.assume(implies(ok, and(le(intLit(0), k), lt(k, app(SInt, "str.len", s)), le(intLit(0), v), le(v, intLit(0x10FFFF)))))
+			e.assume(implies(ok, and(le(intLit(0), k), lt(k, e.strLen(s)), le(intLit(0), v), le(v, intLit(0x10FFFF)))))
 			fr.regs[x] = &TupleV{Elems: []SV{&Scalar{T: ok, Ty: types.Typ[types.Bool]}, &Scalar{T: k, Ty: types.Typ[types.Int]}, &Scalar{T: v, Ty: types.Typ[types.Rune]}}}
 			e.note("string range iterator abstracted (offsets unordered)")
 		} else {
@@ -527,7 +527,7 @@ func (e *Exec) sliceOp(fr *Frame, st *BState, x *ssa.Slice) SV {
 	}
 	switch xv := e.val(fr, x.X).(type) {
 	case *Scalar: // string
-		n := app(SInt, "str.len", xv.T)
+		n := e.strLen(xv.T)
 		lo := get(x.Low, intLit(0))
 		hi := get(x.High, n)
 		e.oblige(st, "nopanic.slice", x.Pos(), and(le(intLit(0), lo), le(lo, hi), le(hi, n)))
@@ -580,12 +580,25 @@ func (e *Exec) convert(fr *Frame, st *BState, x *ssa.Convert) SV {
 		if s, ok2 := src.(*Scalar); ok2 && s.T.Sort == SStr {
 			et := x.Type().Underlying().(*types.Slice).Elem()
 			if basicOf(et) != nil && basicOf(et).Kind() == types.Uint8 {
-				e.assume(eq(sl.Len, app(SInt, "str.len", s.T)))
+				e.assume(eq(sl.Len, e.strLen(s.T)))
 			} else {
-				e.assume(le(sl.Len, app(SInt, "str.len", s.T)))
+				e.assume(le(sl.Len, e.strLen(s.T)))
 			}
 			e.assume(le(sl.Len, sl.Cap))
 		}
 	}
 	return res
+}
+
+// strLen is len(s) of a Go string: an int, so at most MaxInt64.
+func (e *Exec) strLen(s *Term) *Term {
+	n := app(SInt, "str.len", s)
+	if !hasBound(s) && !e.strLenSeen[s] {
+		if e.strLenSeen == nil {
+			e.strLenSeen = map[*Term]bool{}
+		}
+		e.strLenSeen[s] = true
+		e.assume(le(n, bigLit("MAX64")))
+	}
+	return n
 }
